@@ -12,7 +12,7 @@ use crate::spaces::body::{self, B, BodySpace};
 use crate::subjects::alpha::{self, Verdict};
 use serde_json::{Value, json};
 
-const ATOMS: usize = 11;
+pub const ATOMS: usize = 11;
 pub const VARIANTS: [&str; 3] = ["plain", "x is also a parameter", "x is also a module constant"];
 
 fn atom_text(a: u8) -> &'static str
